@@ -604,11 +604,13 @@ class Interpreter:
                 last_before_lca = state
 
             # Take all the descendants of this state and list the ones that are active
-            # Mind the reversed order!
-            for descendant in self._statechart.descendants_for(last_before_lca)[::-1]:
-                # Only leave states that are currently active
-                if descendant in self._configuration:
-                    exited_states.append(descendant)
+            # Deepest states first; ties are broken using the lexicographic order on the names,
+            # so that the order does not depend on the order in which states were declared
+            active_descendants = [
+                descendant for descendant in self._statechart.descendants_for(last_before_lca)
+                if descendant in self._configuration]  # Only leave states that are currently active
+            exited_states.extend(sorted(
+                active_descendants, key=lambda s: (-self._statechart.depth_for(s), s)))
 
             # Add last_before_lca as it is a child of LCA that must be exited
             if last_before_lca in self._configuration:
